@@ -165,7 +165,7 @@ pub fn record(output: &str) {
     let n = if thorough() { 30_000 } else { 3_000 };
     let stacks = ["bare", "tool", "base", "base+tool", "frame", "tool>base"];
     for k in 0..n {
-        let mut p = robots::geometry(robots::GEOMETRY_CLASSES[k % 7], &mut r);
+        let mut p = robots::geometry(robots::GEOMETRY_CLASSES[k % robots::GEOMETRY_CLASSES.len()], &mut r);
         p = robots::convention(p, r.gen_range(0..64), ["zero", "quarter", "random"][k % 3], &mut r);
         let sc = stacks[(k / 7) % stacks.len()];
         let robot = Robot::new(p, solver::stack_for(sc, &mut r), None);
